@@ -2572,6 +2572,8 @@ vbi_format_vt_page(vbi_decoder *vbi,
 				break;
 
 			case 0x0C:		/* normal size */
+				if (VBI_NORMAL_SIZE != ac.size)
+					held_mosaic_unicode = 0xEE20;
 				ac.size = VBI_NORMAL_SIZE;
 				break;
 
@@ -2634,6 +2636,8 @@ vbi_format_vt_page(vbi_decoder *vbi,
 			case 0x00 ... 0x07:	/* alpha + foreground color */
 				ac.foreground = ext->foreground_clut + (raw & 7);
 				ac.conceal = FALSE;
+				if (mosaic)
+					held_mosaic_unicode = 0xEE20;
 				mosaic = FALSE;
 				break;
 
@@ -2656,6 +2660,8 @@ vbi_format_vt_page(vbi_decoder *vbi,
 			case 0x0D:		/* double height */
 				if (row <= 0 || row >= 23)
 					break;
+				if (VBI_DOUBLE_HEIGHT != ac.size)
+					held_mosaic_unicode = 0xEE20;
 				ac.size = VBI_DOUBLE_HEIGHT;
 				double_height = TRUE;
 				break;
@@ -2678,6 +2684,8 @@ vbi_format_vt_page(vbi_decoder *vbi,
 			case 0x10 ... 0x17:	/* mosaic + foreground color */
 				ac.foreground = ext->foreground_clut + (raw & 7);
 				ac.conceal = FALSE;
+				if (!mosaic)
+					held_mosaic_unicode = 0xEE20;
 				mosaic = TRUE;
 				break;
 
